@@ -143,5 +143,20 @@ CHECKS = {
              "states merged by a digest of cache contents and reachable arrays; every memoised result must equal the twin whose caches (found by generic attribute discovery) are cleared before each call.",
         note="Trusted: generic cache discovery (cachetools/lru caches reachable from the objects); depth-bounded families (depth 3-5) are not closed.",
         design="§3 C26"),
+    "C10": dict(
+        level="exploration", engine="grid",
+        technique="exhaustive product enumeration of rod formulations (interpolation x degree x displacement/mixed x constraint sets x element count x reference) x base states x all single-coordinate deviations x rigid motions",
+        text="Per formulation: reference configuration (and every rigid motion of it) has zero energy, internal forces, compliance and constraint residuals; strain energy, compliance and constraint "
+             "residuals invariant under every motion of the group alphabet (incl. exact 90-degree and non-unit-quaternion motions), internal forces invariant under translations; translational rows of h and "
+             "of every column of W_c, W_g sum to zero over the nodes.",
+        note="Trusted: rigid motion acting on nodal coordinates r -> c + A r, p -> p_A o p. Simo1986 (thorough: + Harsch2021), nel <= 3.",
+        design="§3 C10"),
+    "C11": dict(
+        level="exploration", engine="grid",
+        technique="exhaustive product enumeration of rod formulations x states (incl. non-unit nodal quaternions) x cross-section parameters; every reported Jacobian column by column against 5-point stencils / exact affine differences through System",
+        text="h_q, h_u, c_q, c_la_c, Wla_c_q, g_q, Wla_g_q, q_dot_q, q_dot_u, g_S_q, r_OP_q, A_IB_q, v_P_q, J_P, J_P_q; nodal interpolation (position, orientation, velocity equal nodal values at nodal xi), "
+             "rotations at every xi for Quaternion/SE3, mass matrix symmetric PSD with E_kin = 1/2 u^T M u, power-free gyroscopic forces.",
+        note="Trusted: stencil error estimate; time-derivative relations are not demanded at non-nodal xi (Petrov-Galerkin velocities).",
+        design="§3 C11"),
 }
 NOT_APPLICABLE = {}
